@@ -287,8 +287,6 @@ theorem conservation (s : Tok) (h : TInv s) (ops : List TOp) :
     | cons op ops ih => simp only [List.foldl_cons]; exact ih _ (tstep_inv s h op)
   exact ⟨this.conserved, this.nonnegB, this.nonnegE⟩
 
-def tok0 : Tok := ⟨fun _ => 0, fun _ => 0, 0, [], []⟩
-
 theorem tinv_empty : TInv tok0 :=
   ⟨List.nodup_nil, List.nodup_nil, by intro k h; simp [tok0] at h, by intro k h; simp [tok0] at h,
    by intro k; simp [tok0], by intro k; simp [tok0], by simp [held, tok0, sumOver]⟩
